@@ -57,7 +57,12 @@ fn chk<T: Num>(out: &mut Shards, id: usize, c: &Cm<T>, items: &[u64], d: u8, w: 
         json!({"x": it, "b": buckets(it, &c.seeds, w), "est": c.sk.estimate(it).val(),
                "lb": c.sk.lower_bound(it).val(), "ub": c.sk.upper_bound(it).val()})
     }).collect();
-    out.ev(json!({"op":"CChk","id":id,"table":table,"tot":if bytes.len() <= 16 { c.sk.total_weight().val() } else { tot },"q":q,"len":bytes.len()}));
+    let mut e = json!({"op":"CChk","id":id,"table":table,"tot":if bytes.len() <= 16 { c.sk.total_weight().val() } else { tot },"q":q,"len":bytes.len()});
+    if bytes.len() <= 1200 {
+        e["img"] = json!(bytes);
+        e["sh"] = json!(refhash::seed_hash(c.sk.seed()).to_le_bytes().to_vec());
+    }
+    out.ev(e);
 }
 
 fn scenario<T: Num>(out: &mut Shards, rng: &mut Rng, tname: &str, d: u8, w: u32, seed: u64, n_items: usize, n_ops: usize,
